@@ -178,6 +178,7 @@ type realScript struct {
 	Ignored []string   `json:"ignored"`
 	Cycles  [][]editOp `json:"cycles"`
 	Real    bool       `json:"real"`
+	CapBeta int        `json:"capBeta"` // >0: beta's maximum entry count = entries on beta after the first edits + CapBeta - 1
 }
 
 var clock int64 = 1_600_000_000
@@ -245,6 +246,9 @@ func genRealScript(r *rand.Rand, prop string) realScript {
 		return strings.Join(parts, "/")
 	}
 	ncy := 2 + r.Intn(4)
+	if r.Intn(4) == 0 {
+		sc.CapBeta = 1 + r.Intn(4)
+	}
 	for k := 0; k < ncy; k++ {
 		ops := []editOp{}
 		if k == 0 {
@@ -259,6 +263,9 @@ func genRealScript(r *rand.Rand, prop string) realScript {
 		}
 		for i := 0; i < n; i++ {
 			side := []string{"alpha", "beta"}[r.Intn(2)]
+			if sc.CapBeta > 0 && k > 0 {
+				side = "alpha" // beta's own content must not outgrow its cap (its scans would then fail)
+			}
 			p := randPath()
 			switch r.Intn(12) {
 			case 0, 1, 2, 3, 4:
@@ -274,6 +281,9 @@ func genRealScript(r *rand.Rand, prop string) realScript {
 			case 9:
 				ops = append(ops, editOp{Side: side, Op: "fifo", Path: p})
 			case 10: // same edit on both sides
+				if sc.CapBeta > 0 && k > 0 {
+					continue
+				}
 				c := content()
 				ops = append(ops, editOp{Side: "alpha", Op: "write", Path: p, Arg: c}, editOp{Side: "beta", Op: "write", Path: p, Arg: c})
 			case 11: // content inside an ignored directory
@@ -296,7 +306,7 @@ func runRealCase(m *synchronization.Manager, dataDir, base string, cid int, sc r
 	realReg[dir] = &realCase{cs: cs, ignored: sc.Ignored}
 	realMu.Unlock()
 	defer func() { realMu.Lock(); delete(realReg, dir); realMu.Unlock() }()
-	in := map[string]any{"mode": sc.Mode, "presA": true, "presB": true, "real": true, "ignored": sc.Ignored, "cycles": sc.Cycles}
+	in := map[string]any{"mode": sc.Mode, "presA": true, "presB": true, "real": true, "ignored": sc.Ignored, "cycles": sc.Cycles, "capBeta": sc.CapBeta}
 	var ignSeqs []any
 	for _, ig := range sc.Ignored {
 		ignSeqs = append(ignSeqs, vtree.Path(ig))
@@ -315,12 +325,16 @@ func runRealCase(m *synchronization.Manager, dataDir, base string, cid int, sc r
 	}
 	conf := &synchronization.Configuration{SynchronizationMode: modes[sc.Mode], WatchMode: synchronization.WatchMode_WatchModeNoWatch,
 		Ignores: patterns}
+	confBeta := &synchronization.Configuration{}
+	if sc.CapBeta > 0 {
+		confBeta.MaximumEntryCount = uint64(countNodes(walk(rb, "", nil, false)) + sc.CapBeta - 1)
+	}
 	ctx, cancel := context.WithTimeout(context.Background(), 60*time.Second)
 	defer cancel()
 	id, err := m.Create(ctx,
 		&urlpkg.URL{Kind: urlpkg.Kind_Synchronization, Protocol: urlpkg.Protocol_Local, Path: ra},
 		&urlpkg.URL{Kind: urlpkg.Kind_Synchronization, Protocol: urlpkg.Protocol_Local, Path: rb},
-		conf, &synchronization.Configuration{}, &synchronization.Configuration{}, "", nil, false, "")
+		conf, &synchronization.Configuration{}, confBeta, "", nil, false, "")
 	if err != nil {
 		cs.emit(map[string]any{"ev": "CreateError", "err": err.Error()})
 		return cs.recs
@@ -344,7 +358,7 @@ func runRealCase(m *synchronization.Manager, dataDir, base string, cid int, sc r
 		cs.inexact = 0
 		cs.mu.Unlock()
 		cs.emit(saved)
-		quiescent = saved["flushErr"] == ""
+		quiescent = saved["flushErr"] == "" && saved["exact"] == true
 		if saved["flushErr"] != "" {
 			break
 		}
@@ -365,6 +379,16 @@ func rmTree(p string) {
 		}
 	}
 	os.Remove(p)
+}
+
+func countNodes(t map[string]any) int {
+	n := 1
+	if c, ok := t["c"].(map[string]any); ok {
+		for _, ch := range c {
+			n += countNodes(ch.(map[string]any))
+		}
+	}
+	return n
 }
 
 func sortedKeys(m map[string]any) []string {
